@@ -329,7 +329,7 @@ impl C05 {
                             }
                             2 => {
                                 let mut v = base.clone();
-                                let p = src.below(len.max(1));
+                                let p = if len >= 4 && src.chance(85) { len - 1 - src.below(4) } else { src.below(len.max(1)) };
                                 if !v.is_empty() {
                                     v[p] = if v[p] == b'q' { b'r' } else { b'q' };
                                 }
@@ -342,7 +342,8 @@ impl C05 {
                         t
                     }
                     _ => {
-                        let len = 24 + src.below(60);
+                        // (a quarter of the long strings are 88-267 bytes: keys around 128 and 256 bytes; fixed buffers have such sizes)
+                        let len = if src.chance(64) { 88 + src.below(180) } else { 24 + src.below(60) };
                         let off = src.below(37);
                         let k = src.below(nlab);
                         let mut t: Vec<String> = (0..nlab).map(|_| src.text(VALUE_FRAGS, 1)).collect();
